@@ -212,6 +212,17 @@ def gen_C03(g, tier):
                 lines.append(f"{c} get {v} {base}")
                 lines.append(f"{c} show sl r {v} {v} {base}")
                 lines.append(f"{c} show sl ri 0 {v} {base}")
+        # slices / symbol access of owned sequences whose bit vector starts mid-word (From<&BitSlice>)
+        for off in ([3, 6, 61] if tier == "quick" else range(1, 64, 3)):
+            n = 64 // w + 5
+            t = g.text(c, n)
+            fb = f"frombits {off} p str {hx(t)}"
+            lines.append(f"{c} show {fb}")
+            lines.append(f"{c} show sl r 1 {n - 1} {fb}")
+            lines.append(f"{c} show sl r 1 3 sl rf 2 0 {fb}")
+            lines.append(f"{c} nth {n // 2} {fb}")
+            lines.append(f"{c} get {n - 1} {fb}")
+            lines.append(f"{c} iter {fb}")
         # slices of owned copies, static k-mer derefs
         t = g.text(c, 9)
         lines.append(f"{c} show sl r 1 3 own sl r 2 8 p str {hx(t)}")
@@ -371,6 +382,24 @@ def gen_C06(g, tier):
                 if m >= 0:
                     lines.append(f"{c} show trunc {m} {base}")
             lines.append(f"{c} show clear {base}")
+            # removal of exactly one or two 64-bit words' worth of symbols starting mid-word, on a longer sequence
+            if 64 % w == 0:
+                per_ = 64 // w
+                long = g.text(c, 3 * per_ + 5)
+                for s0 in (1, 5 % per_ + 1, per_ - 1, per_ + 3):
+                    for ln in (per_, 2 * per_):
+                        if s0 + ln <= len(long):
+                            lines.append(f"{c} show remove r {s0} {s0 + ln} p str {hx(long)}")
+                            lines.append(f"{c} raw remove r {s0} {s0 + ln} p str {hx(long)}")
+                lines.append(f"{c} raw remove rt 0 {per_ // 2 + 1} p str {hx(long)}")
+                lines.append(f"{c} raw remove r 0 3 p str {hx(long)}")
+            # edits after a shrinking edit (stale bits above the live length must not leak)
+            for shrink in (f"trunc {max(n - 2, 0)}", f"remove rf {max(n - 3, 0)} 0", f"fromraw {max(n - 1, 0)}", f"remove r 0 {min(2, n)}"):
+                lines.append(f"{c} show push 0 {shrink} {base}")
+                lines.append(f"{c} show push 1 push 0 {shrink} {base}")
+                lines.append(f"{c} show ext {hx(g.text(c, 3))} {shrink} {base}")
+                lines.append(f"{c} show append {shrink} {base} p str {hx(g.text(c, 2))}")
+                lines.append(f"{c} raw push 0 {shrink} {base}")
             for kind in ("filter", "takewhile", "fromfn", "trait"):
                 for m in (0, 1, 3, 64 // w + 1):
                     lines.append(f"{c} show extk {kind} {hx(g.text(c, m))} {base}")
@@ -530,6 +559,29 @@ def gen_C02(g, tier):
                 ks = " ".join(f"p str {hx(k)}" for k in keys)
                 lines.append(f"{c} mapget {len(keys)} {ks} {a}")
                 lines.append(f"{c} mapget {len(keys)} {ks} {offset_slice(g, c, g.text(c, n), lead)}")
+        # two windows of the SAME parent (same allocation, starts in the same byte / word at different bit offsets)
+        for n in ([per + 3, 2 * per + 2] if tier == "quick" else [3, per - 1, per + 3, 2 * per + 2, 3 * per]):
+            for _ in range(6 if tier == "quick" else 40):
+                t = g.text(c, n)
+                if r.random() < 0.5:
+                    t = [r.choice(t[:2])] * n  # homopolymer-ish parents make distinct equal windows common
+                ln = r.randrange(0, min(n, per) + 1)
+                a1 = r.randrange(0, n - ln + 1)
+                a2 = min(n - ln, a1 + r.choice([0, 1, 1, 2, 3, per]))
+                for pr in ("slice_slice", "refslice_slice", "refslice_refslice", "ne"):
+                    lines.append(f"{c} eqwin {pr} {a1} {a1 + ln} {a2} {a2 + ln} p str {hx(t)}")
+        # a sequence equals no text that differs only in case (case distinguishes symbols in the masked codecs)
+        for _ in range(4 if tier == "quick" else 40):
+            n = r.randrange(1, 2 * per)
+            ct = g.canon_text(c, n)
+            flipped = [b ^ 0x20 if (65 <= b <= 90 or 97 <= b <= 122) else b for b in ct]
+            one = list(ct)
+            j = r.randrange(n)
+            if 65 <= one[j] <= 90 or 97 <= one[j] <= 122:
+                one[j] ^= 0x20
+            sl = offset_slice(g, c, ct, r.randrange(0, per + 1))
+            lines.append(f"{c} eqstr {hx(flipped)} {sl}")
+            lines.append(f"{c} eqstr {hx(one)} {sl}")
         # owned values with a history (truncated, drained, rebuilt from raw words, reversed, extended ...) equal,
         # hash like, order like and are found in a map like a sequence freshly built from the same symbols
         for _ in range(40 if tier == "quick" else 600):
@@ -636,6 +688,11 @@ def gen_C08(g, tier):
                     lines.append(f"{c} show kd {K} {sl}")
                     lines.append(f"{c} show ofkmer {K} {sl}")
                 lines.append(f"{c} kmer tryseq {K} usize p str {hx(t)}")
+                if n == K:
+                    lines.append(f"{c} kmer tryseq {K} usize trunc {K} p str {hx(t + g.text(c, 3))}")
+                    lines.append(f"{c} kmer tryseq {K} usize remove r 0 2 p str {hx(g.text(c, 2) + t)}")
+                    lines.append(f"{c} kmer tryseq {K} usize frombits {r.randrange(1, 64)} p str {hx(t)}")
+                    lines.append(f"{c} kmer tryseq {K} usize own {offset_slice(g, c, t, r.randrange(1, per + 1))}")
                 lines.append(f"{c} kmer unsafefrom {K} usize p str {hx(t)}")
             ct = g.canon_text(c, K)
             v = g.value(c, ct)
@@ -761,7 +818,9 @@ def gen_C10(g, tier):
         for K in fitting_ks(w, 64, tier, r):
             for _ in range(2 if tier == "quick" else 10):
                 n = r.randrange(K, K + 12)
-                lines.append(f"{c} kmer minmax {K} usize {offset_slice(g, c, g.text(c, n), r.randrange(0, per + 1))}")
+                sl_ = offset_slice(g, c, g.text(c, n), r.randrange(0, per + 1))
+                lines.append(f"{c} kmer minmax {K} usize {sl_}")
+                lines.append(f"{c} kmer minafter {K} usize {r.choice([0, 1, 2, 3, n - K, n - K + 1, n])} {sl_}")
     # codecs without Ord must be refused by both sides
     lines.append("iupac cmp p str 41 p str 43")
     lines.append("amino kmer cmp 2 usize 1 2")
